@@ -206,7 +206,12 @@ func ruleR191(c *Ctx) {
 				if !ok || len(call.Args) != 1 {
 					continue
 				}
-				if sel, ok := ast.Unparen(call.Fun).(*ast.SelectorExpr); !ok || sel.Sel.Name != "isConst" {
+				// the constant test: a function or method (V, bool) of one AST argument (o.isConst(x) / isConst[V](x))
+				if cal := Callee(info, call); cal == nil {
+					continue
+				} else if sig, ok := cal.Type().(*types.Signature); !ok || sig.Results().Len() != 2 || sig.Params().Len() != 1 || !isNamed(sig.Params().At(0).Type(), modPath, "AST") {
+					continue
+				} else if bt, ok := sig.Results().At(1).Type().Underlying().(*types.Basic); !ok || bt.Kind() != types.Bool {
 					continue
 				}
 				if arg, ok := ast.Unparen(call.Args[0]).(*ast.SelectorExpr); ok && nodeStr(c.Fset, arg.X) == nodeStr(c.Fset, kept.X) {
